@@ -143,7 +143,7 @@ func (r *Run) do(op Op) {
 	h0, v0 := h.HV()
 	rec := OpRecord{Op: op, At: time.Now(), H0: h0, V0: v0, SentBefore: h.NSent(), CommitsBefore: h.NCommits(), RoundsBefore: h.NRounds()}
 	for _, e := range h.Gates.Blocked() {
-		rec.BlockedAtStart = append(rec.BlockedAtStart, GateEntry{Kind: e.Kind, H: e.H, V: e.V, Policy: e.Policy})
+		rec.BlockedAtStart = append(rec.BlockedAtStart, GateEntry{Kind: e.Kind, H: e.H, V: e.V, PosExact: e.PosExact, Policy: e.Policy})
 	}
 	if h.Sch != nil {
 		rec.SchedActive, rec.SchedCur, rec.Stops, rec.Regs = h.Sch.Snap()
